@@ -495,13 +495,23 @@ pub fn gen_and_run(seed: u64, index: u64, scratch: &str, cfg: &GenCfg, fenced: &
     }
     // how the arguments are written
     if rng.chance(1, 4) {
-        layout.src_form = rng.pick(&["abs", "slash", "dotdot"]).to_string();
+        layout.src_form = rng.pick(&["abs", "slash", "dotdot", "symlink"]).to_string();
         if layout.src.as_deref() == Some(".") {
             layout.src_form = String::new();
         }
     }
     if rng.chance(1, 4) {
-        layout.target_form = rng.pick(&["abs", "slash", "dotdot", "abs_outside"]).to_string();
+        layout.target_form = rng.pick(&["abs", "slash", "dotdot", "abs_outside", "symlink"]).to_string();
+    }
+    // symbolic links inside the source tree: a linked file, or a linked directory
+    if layout.src.as_deref() != Some(".") && rng.chance(1, 6) {
+        let f = rng.pick(&files).path.clone();
+        let first = f.split('/').next().unwrap_or("").to_string();
+        if f.contains('/') && rng.chance(1, 2) {
+            layout.links.push(first);
+        } else {
+            layout.links.push(f);
+        }
     }
     // files elsewhere in the project directory that must be ignored
     let mut outside: Vec<SrcFile> = vec![];
@@ -1024,6 +1034,9 @@ pub fn minimise(sc: &C13Scenario, class: &str, scratch: &str, budget: &mut usize
         c.layout = Layout::default();
         attempt(c, &mut best, budget);
         let mut c = best.clone();
+        c.layout.links.clear();
+        attempt(c, &mut best, budget);
+        let mut c = best.clone();
         c.root_name = "proj".into();
         attempt(c, &mut best, budget);
         let mut c = best.clone();
@@ -1278,6 +1291,7 @@ pub fn run_check(tier_name: &str, seed: u64, verif_dir: &str) -> i32 {
             "after_failed_run": {"tree_untouched": stats.err_tree_untouched, "prefix_of_expected": stats.err_tree_prefix, "other": stats.err_tree_other, "crash_between_two_file_writes": stats.crash_between_writes},
             "overwrote_longer_file": stats.overwrote_longer,
             "steps_with_obstacle_in_output_dir": stats.steps_with_obstacle,
+            "source_paths_materialised_as_symlinks": stats.linked_sources,
             "deleted_in_target_tolerated": stats.deleted_in_target_tolerated,
             "single_faulty_file_rejections_checked": stats.single_faulty_rejected,
             "single_faulty_by_kind": stats.faulty_kinds_checked,
